@@ -257,8 +257,23 @@ def failing_library_call(variant):
     raise AssertionError("failing_library_call: the call was accepted")
 
 
+def _warm_reads(nodes):
+    """what a caller may do between two structural calls: look children up by name (`node[name]`, only Node has it),
+    ask for derived properties.  Results are discarded; whatever the library remembers from these reads must not
+    matter later."""
+    if nodes and hasattr(type(nodes[0]), "__getitem__") and len(nodes) <= 12:
+        names = {x.node_name for x in nodes}
+        for x in nodes:
+            for nm in names:
+                try:
+                    x[nm]
+                except Exception:  # noqa: BLE001
+                    pass
+
+
 def snap(nodes):
     """(parent id | None | '?', [child ids]) per node, through the public properties"""
+    _warm_reads(nodes)
     idx = {id(x): i for i, x in enumerate(nodes)}
     out = []
     for x in nodes:
